@@ -36,6 +36,7 @@ def main():
     demodir = m.group(1) if (m and "package autog_test" not in open(demo).read()) else "."
     m = re.search(r"-run\s+'?\"?([\w|^$.*]+)", head)
     runpat = m.group(1) if m else "."
+    race = "-race " if "-race" in head else ""
     wt = "/tmp/sw-" + sid
     sh("git -C /repo worktree remove --force %s" % wt)
     shutil.rmtree(wt, ignore_errors=True)
@@ -54,10 +55,10 @@ def main():
             print(out[-2000:])
         dst = os.path.join(wt, demodir, sid.lower() + "_demo_test.go")
         shutil.copy(demo, dst)
-        rc1, out1 = sh("go test -vet=off -count=1 -run '%s' ./%s" % (runpat, demodir), cwd=wt)
+        rc1, out1 = sh("go test %s-vet=off -count=1 -run '%s' ./%s" % (race, runpat, demodir), cwd=wt)
         meta["confirmed"]["demo_fails_with_change"] = rc1 != 0
         sh("git apply -R %s" % patch, cwd=wt)
-        rc2, out2 = sh("go test -vet=off -count=1 -run '%s' ./%s" % (runpat, demodir), cwd=wt)
+        rc2, out2 = sh("go test %s-vet=off -count=1 -run '%s' ./%s" % (race, runpat, demodir), cwd=wt)
         meta["confirmed"]["demo_passes_without_change"] = rc2 == 0
         if rc1 == 0 or rc2 != 0:
             print("DEMO PROBLEM\n--- with change:\n%s\n--- without:\n%s" % (out1[-1500:], out2[-1500:]))
